@@ -2001,6 +2001,9 @@ func exec(c px.Context, op string, args []sx.Sexp) core.Result {
 	if op == "ifacecov" {
 		return execIfaceCov(c, args)
 	}
+	if op == "anon" {
+		return execAnon(c, args)
+	}
 	if op == "nested" {
 		return execNested(c, args)
 	}
